@@ -508,7 +508,7 @@ example : histStep 0 pyLower ⟨some BS.Gen.c17DefaultCdataListAttributes, .plai
 /-- Making another tag — a later start tag (same or later document), `new_tag`, a copy — leaves every tag made before
     exactly as it was. -/
 theorem creation_leaves_earlier_tags_unchanged (md : Nat) (lower : PStr → PStr) (b : BuilderCfg) (st st' : Hist)
-    (s : Step) (hs : (∃ n a, s = .parse n a) ∨ (∃ n d, s = .newTag n d) ∨ (∃ i, s = .copy i))
+    (s : Step) (hs : (∃ n a, s = .parse n a) ∨ (∃ n d, s = .newTag n d) ∨ (∃ i, s = .copy i) ∨ (∃ i x, s = .ctor i x))
     (h : histStep md lower b st s = .ok st') : ∀ j, j < st.length → st'[j]? = st[j]? := by
   intro j hj
   have key : ∀ (r : Res TagAttrs) (n : PStr),
@@ -520,9 +520,13 @@ theorem creation_leaves_earlier_tags_unchanged (md : Nat) (lower : PStr → PStr
       simp only [Res.bind, Res.ok.injEq] at hr
       subst hr
       exact List.getElem?_append_left hj
-  rcases hs with ⟨n, a, rfl⟩ | ⟨n, d, rfl⟩ | ⟨i, rfl⟩
+  rcases hs with ⟨n, a, rfl⟩ | ⟨n, d, rfl⟩ | ⟨i, rfl⟩ | ⟨i, x, rfl⟩
   · exact key _ _ h
   · exact key _ _ h
+  · simp only [histStep] at h
+    cases hi : st[i]? with
+    | none => simp only [hi, Res.ok.injEq] at h; subst h; rfl
+    | some p => simp only [hi] at h; exact key _ _ h
   · simp only [histStep] at h
     cases hi : st[i]? with
     | none => simp only [hi, Res.ok.injEq] at h; subst h; rfl
